@@ -11,6 +11,8 @@ Model:   spec/Canon.tla     the canonicalization algorithm of src/abg-ir.cc as a
          CanonStale5.cfg    (thorough) cycle test repaired, class_decl pass guarded but the flag still sticky, outermost return as
                             coded: refuted with 5 nodes (stale non-confirmed entries cost a type its canonical type).
          CanonMutant.cfg    vacuity guard: PropagateDespiteCycle (no dependency tracking, nothing cancelled) must be refuted.
+         CanonMutantP2.cfg  algorithm mutant Pass2ClearsDeps (4 nodes): refuted; like every refuted mutant its counterexample (graph + order) is
+                            replayed on the real library, which must NOT go wrong on it.
 Replay:  (a) harness/irdump.cc dumps the loaded type graph of every campaign binary (TLC-generated programs of Abi.tla in
              1-3 translation units, hand-written multi-TU sources of render/canon_samples, every graph of Canon.tla rendered
              as ABIXML, the same graphs built with the IR constructors and canonicalized in a model-chosen order by
@@ -82,7 +84,8 @@ def models(c):
     """The repaired algorithm must satisfy CanonIffBisim; the algorithm as coded and the mutant must be refuted by TLC."""
     hold = ["Canon.cfg", "CanonPtr.cfg"] + (["CanonThorough.cfg", "CanonThoroughPtr.cfg", "CanonThorough5.cfg"] if c.thorough else [])
     refute = [("CanonAsCoded.cfg", "as coded (set-based cycle detection, sticky propagated flag, partial confirm/cancel at the outermost return)"),
-              ("CanonMutant.cfg", "mutant PropagateDespiteCycle")] + \
+              ("CanonMutant.cfg", "mutant PropagateDespiteCycle"),
+              ("CanonMutantP2.cfg", "mutant Pass2ClearsDeps (the class_decl pass also clears the depends-on-recursive-type marks of the right operand)")] + \
              ([("CanonStale5.cfg", "cycle test repaired, class_decl pass guarded, flag still sticky, outermost return as coded (stale non-confirmed entries)")] if c.thorough else [])
     w = max(2, vf.JOBS // 4)
     rs = vf.pmap(lambda cfg: vf.tlc_check("Canon.tla", cfg, timeout=1400, workers=w, heap="6g"), hold + [x[0] for x in refute], jobs=4)
@@ -104,6 +107,11 @@ def models(c):
             vf.infra("TLC does not refute CanonIffBisim for %s: the invariant is vacuous or the model changed" % what)
         if cfg == "CanonAsCoded.cfg":
             c.as_coded_counterexample = counterexample(r["out"])
+        elif cfg.startswith("CanonMutant"):
+            # the behaviour that tells the mutated algorithm from the right one: replayed on the real library below, where it must be accepted
+            cx = counterexample(r["out"])
+            if cx:
+                c.mutant_counterexamples = getattr(c, "mutant_counterexamples", []) + [(cfg, cx)]
 
 
 # ------------------------------------------------------------------------------------------------ projection of one loading
@@ -388,6 +396,13 @@ def main():
             # accepted: the library no longer behaves as CanonAsCoded.cfg describes it in this respect (repaired)
             c.cov["as_coded_counterexample"]["rejected_on_the_real_library"] = not v["accepted"]
             res.append(r)
+    # the (graph, order) behaviours with which TLC refuted the *mutants* of the algorithm: the real library is run on each of them and judged like every
+    # other loading (canon = canon <=> Bisim on the dump, H5 events as steps of Canon) -- a library that implements the mutant is rejected here
+    c.cov["mutant_counterexamples_replayed"] = []
+    for cfg, (mg, morder) in getattr(c, "mutant_counterexamples", []):
+        r = one_api((0, mg, morder, "tlc-counterexample-" + cfg.replace(".cfg", "")))
+        c.cov["mutant_counterexamples_replayed"].append({"cfg": cfg, "graph": mg, "order": morder, "ran": r[0] == "ok"})
+        res.append(r)
     mark("api")
 
     execs, dbg, paths = [], [], {}
